@@ -14,3 +14,6 @@ print("baseline stable tests:",len(base),"passing now:",len(base)-len(missing))
 for t in missing: print("NOT PASSING:",t,res.get(t))
 sys.exit(1 if missing else 0)
 '
+rc=$?
+git -C /repo clean -fdq 2>/dev/null || true  # test artifacts (merkletree.db, temp.db) are not part of the tree
+exit $rc
